@@ -16,7 +16,7 @@ import numpy as np
 from harness import common, nnd_corr
 
 COQ_FILES = ["model/Base.v", "model/Heap.v", "model/Rng.v", "model/NND.v", "model/Diversify.v", "model/Repro.v", "proofs/ListAux.v", "proofs/Par.v",
-             "proofs/C05Proofs.v", "proofs/C05Nbc.v"]
+             "proofs/C05Proofs.v", "proofs/C05Nbc.v", "proofs/C05Threads.v"]
 SENTINELS = {"pynndescent/utils.py": ["apply_graph_updates_low_memory", "apply_graph_updates_high_memory", "new_build_candidates", "tau_rand_int",
                                       "tau_rand", "deheap_sort"],
              "pynndescent/pynndescent_.py": ["diversify", "diversify_csr", "degree_prune_internal", "generate_leaf_updates", "generate_graph_updates",
